@@ -277,6 +277,16 @@ def _match_unit(world, unit, o, obs, strict):
     return (posmap, pads), None
 
 
+def _has_edges(b):
+    """The library's padding block takes no part in the CFG (a fallthrough
+    into the aligned block skips it); a patch's own nop does."""
+    import gtirb
+
+    if not isinstance(b, gtirb.CodeBlock):
+        return False
+    return any(True for _ in b.outgoing_edges) or any(True for _ in b.incoming_edges)
+
+
 def _pad_ok(world, o, obs, r, p, final=False, strict=True):
     """Padding must end where a block with an alignment requirement starts,
     be shorter than that alignment, leave that block aligned, and be
@@ -285,7 +295,7 @@ def _pad_ok(world, o, obs, r, p, final=False, strict=True):
     if not covered:
         return False
     if strict and not any(
-        off == r and size == p and obs.align.get(b.uuid, 1) <= 1 and (obs.pre_blocks is None or b.uuid not in obs.pre_blocks) and not any(True for _ in b.references)
+        off == r and size == p and obs.align.get(b.uuid, 1) <= 1 and (obs.pre_blocks is None or b.uuid not in obs.pre_blocks) and not any(True for _ in b.references) and not _has_edges(b)
         for (b, off, size, kind) in o.blocks
     ):
         # the library covers padding with a fresh block of its own (which
